@@ -41,9 +41,11 @@ ASSUMPTIONS = [
     "type conditions are ignored by the untyped collection and by the specification alike (depth is an upper bound over all runtime types)",
 ]
 TRUSTED = [
-    "with C19-Q3.patch `_nesting_levels` is iterative (a frontier per level, identical selection sets of a level measured once): it is "
-    "modelled by the equivalent recursion `nestingLevelsG` with the same per-level budgets; the equivalence is exercised by the "
-    "correspondence (all streams, deep chains, the exponential-paths document), not proved",
+    "the loop of `_nesting_levels` is modelled AS WRITTEN (re-extracted shape: `levelFrontier` -> `nestingLevelsF`, a frontier of selection "
+    "lists per level; `levelMerged` -> `nestingLevelsM`, one list per level, proposed fix C19-H3; neither -> the recursive versions) and proved "
+    "equal to the recursive measure on acyclic documents (frontier_eq_recursive / merged_eq_recursive, ruleF_eq_ruleB / ruleM_eq_ruleB); not "
+    "modelled: the `id`-based de-duplication inside one level (`seen`), which drops an entry made of the same node objects as an earlier entry "
+    "of the level - argued result-transparent (same arguments, same outcome), exercised by every stream",
     "the Lean model of the rule is a pure function of (limit, filter, document, variables): that the implementation keeps no state "
     "between calls (instance, Document nodes, module) is checked by the history stream, not proved",
     "harness/corr/C19.py: conversion of the parsed py_gql AST into the minimal JSON document of Driver/C19.lean (checked on every "
@@ -221,14 +223,27 @@ def conv_doc(document):
 
 # ----------------------------------------------------------------------------- reference spec (Python)
 
-def is_skipped(d, vs):
-    """reference semantics; a condition that cannot be evaluated (its variable is unavailable in `vs`) KEEPS the selection
-       (the kept-when-unknown reading of C19-Q1vars2: the depth is an upper bound over the unknown condition)"""
-    if any(c is not None and "var" in c and c["var"] not in vs for c in (d["skip"], d["incl"])):
-        return False
+SEPARATE = [False]   # set by run() / replay(): the tree evaluates @skip and @include on their own (proposed fix C19-H4)
+
+
+def is_skipped(d, vs, separate=None):
+    """reference semantics; a condition that cannot be evaluated (its variable is unavailable in `vs`) decides nothing.
+       `separate` (default: what the tree under test does, `is_separate_directives_tree`): the two directives are read on their own -
+       the selection is skipped as soon as ONE evaluable directive excludes it (three-valued reading, the tight upper bound over the
+       unknown condition); otherwise the reading of C19-Q1vars2 as implemented today: ONE unevaluable condition keeps the selection
+       whatever the other directive says."""
+    separate = SEPARATE[0] if separate is None else separate
+
+    def known(c):
+        return "lit" in c or c["var"] in vs
 
     def val(c):
         return c["lit"] if "lit" in c else bool(vs.get(c["var"], False))
+    if separate:
+        return ((d["skip"] is not None and known(d["skip"]) and val(d["skip"]))
+                or (d["incl"] is not None and known(d["incl"]) and not val(d["incl"])))
+    if any(c is not None and not known(c) for c in (d["skip"], d["incl"])):
+        return False
     return (d["skip"] is not None and val(d["skip"])) or (d["incl"] is not None and not val(d["incl"]))
 
 
@@ -334,7 +349,7 @@ def ref_paths(sels, frags, vs, maxdepth, prefix=()):
        `maxdepth` components (None/0 = unbounded), as a set of tuples"""
     out = set()
     for s in sels:
-        if is_skipped(s["d"], vs):
+        if is_skipped(s["d"], vs, separate=False):
             continue
         if s["k"] == "f":
             p = prefix + (s["n"],)
@@ -1023,7 +1038,33 @@ def lenient_hook(path, funcname):
           and isinstance(body[0].handlers[0].body[0].value, pyast.Constant) and body[0].handlers[0].body[0].value.value is False
           and not body[0].orelse and not body[0].finalbody)
     if not ok:
+        if _separate_hook(body):
+            return "separate"
         raise ValueError("%s: hook %s is not `try: return _skip_selection(..) except CoercionError: return False`" % (funcname, hook))
+    return True
+
+
+def _separate_hook(body):
+    """the hook of proposed fix C19-H4: the two directives evaluated on their own,
+         try: skip = directive_arguments(SkipDirective, ..); if skip is not None and skip['if']: return True   except CoercionError: pass
+         try: include = directive_arguments(IncludeDirective, ..); if include is not None and not include['if']: return True   except ..: pass
+         return False"""
+    import ast as pyast
+    if len(body) != 3 or not isinstance(body[0], pyast.Try) or not isinstance(body[1], pyast.Try) or not isinstance(body[2], pyast.Return):
+        return False
+    if not (isinstance(body[2].value, pyast.Constant) and body[2].value.value is False):
+        return False
+    want = [("skip = directive_arguments(SkipDirective, node, variables=variables)", "if skip is not None and skip['if']:\n    return True"),
+            ("include = directive_arguments(IncludeDirective, node, variables=variables)", "if include is not None and (not include['if']):\n    return True")]
+    for t, (w0, w1) in zip(body[:2], want):
+        if len(t.body) != 2 or t.orelse or t.finalbody or len(t.handlers) != 1:
+            return False
+        if pyast.unparse(t.body[0]) != w0 or pyast.unparse(t.body[1]).replace("(not include['if'])", "(not include['if'])") != w1:
+            if not (pyast.unparse(t.body[0]) == w0 and pyast.unparse(t.body[1]) == w1.replace("(not include['if'])", "not include['if']")):
+                return False
+        h = t.handlers[0]
+        if getattr(h.type, "id", None) != "CoercionError" or len(h.body) != 1 or not isinstance(h.body[0], pyast.Pass):
+            return False
     return True
 
 
@@ -1038,6 +1079,9 @@ def extract(ctx):
     budgeted = is_budgeted_tree()
     lenient = is_lenient_sf_tree()
     shared = is_shared_seen_tree()
+    loop = nesting_loop_shape()
+    merged, frontier = loop == "merged", loop == "frontier"
+    separate = is_separate_directives_tree()
     return {"PyGqlModel/Generated/DepthVariant.lean": (
         "/- GENERATED by harness/corr/C19.py: extract() from src/py_gql/utilities/{max_depth,collect_fields}.py — do not edit. -/\n"
         "namespace PyGql.Generated.DepthVariant\n\n"
@@ -1049,7 +1093,48 @@ def extract(ctx):
         "def lenientSelectedFields : Bool := %s\n\n"
         "/-- `collect_fields_untyped` keeps ONE visited-fragments set per collection (`if _seen_fragments is None`, C19-H2.patch) -/\n"
         "def sharedSeen : Bool := %s\n\n"
-        "end PyGql.Generated.DepthVariant\n" % tuple("true" if x else "false" for x in (tolerant, budgeted, lenient, shared)))}
+        "/-- `_nesting_levels` keeps ONE list of selections per level (C19-H3.patch) instead of a frontier of merged sub-selection lists -/\n"
+        "def levelMerged : Bool := %s\n\n"
+        "/-- `_nesting_levels` iterates level by level over a FRONTIER of selection lists (C19-Q3.patch: model `nestingLevelsF`); when both\n"
+        "    are false the function is one of the recursive versions (model `nestingLevelsG`) -/\n"
+        "def levelFrontier : Bool := %s\n\n"
+        "/-- the hook of `_nesting_levels` evaluates @skip and @include on their own: one KNOWN excluding directive skips the selection whatever\n"
+        "    the other, unevaluable, one is (C19-H4.patch: model `skipSelectionT3`) -/\n"
+        "def separateDirectives : Bool := %s\n\n"
+        "end PyGql.Generated.DepthVariant\n" % tuple("true" if x else "false" for x in (tolerant, budgeted, lenient, shared, merged, frontier, separate)))}
+
+
+def nesting_loop_shape():
+    """"recursive" | "frontier" | "merged": shape of the loop of `_nesting_levels`: a `for ... in frontier` over a list of selection lists (today), or ONE list per level
+       handed to `collect_fields_untyped` directly in the `while` body (C19-H3.patch: model `nestingLevelsM`)"""
+    import ast as pyast
+    from common import REPO
+    tree = pyast.parse((REPO / "src/py_gql/utilities/max_depth.py").read_text())
+    fn = [n for n in pyast.walk(tree) if isinstance(n, pyast.FunctionDef) and n.name == "_nesting_levels"]
+    if not fn:
+        return "recursive"
+    loops = [n for n in pyast.walk(fn[0]) if isinstance(n, pyast.While)]
+    if not loops:
+        return "recursive"                 # the recursive versions (before C19-Q3.patch)
+    if len(loops) != 1:
+        raise ValueError("_nesting_levels has an unknown shape (several while loops)")
+    w = loops[0]
+    cond = pyast.unparse(w.test)
+
+    def collect_calls(node):
+        return [c for c in pyast.walk(node) if isinstance(c, pyast.Call) and pyast.unparse(c.func) == "collect_fields_untyped"]
+    direct = [st for st in w.body if not isinstance(st, (pyast.For, pyast.While)) and collect_calls(st)]
+    nested = [st for st in w.body if isinstance(st, pyast.For) and collect_calls(st)]
+    if nested and not direct:
+        if cond != "frontier" or pyast.unparse(nested[0].iter) != "frontier":
+            raise ValueError("_nesting_levels iterates over an unknown frontier (%s)" % cond)
+        return "frontier"
+    if direct and not nested:
+        call = collect_calls(direct[0])[0]
+        if not call.args or pyast.unparse(call.args[0]) != cond:
+            raise ValueError("_nesting_levels collects something else than the list its loop tests (%s)" % cond)
+        return "merged"
+    raise ValueError("_nesting_levels has an unknown shape (where collect_fields_untyped is called)")
 
 
 def is_shared_seen_tree():
@@ -1074,7 +1159,10 @@ def is_lenient_sf_tree():
     p = REPO / "src/py_gql/utilities/collect_fields.py"
     if "def _selected_paths" not in p.read_text():
         return False
-    return lenient_hook(p, "_selected_paths")
+    r = lenient_hook(p, "_selected_paths")
+    if r == "separate":
+        raise ValueError("_selected_paths: a hook evaluating the two directives separately is outside the model of selected_fields")
+    return bool(r)
 
 
 def is_budgeted_tree():
@@ -1088,7 +1176,17 @@ def is_tolerant_tree():
     p = REPO / "src/py_gql/utilities/max_depth.py"
     if "def _nesting_levels" not in p.read_text():
         return False
-    return lenient_hook(p, "_nesting_levels")
+    return bool(lenient_hook(p, "_nesting_levels"))
+
+
+def is_separate_directives_tree():
+    """the hook `_nesting_levels` passes evaluates @skip and @include on their own (proposed fix C19-H4): a selection is excluded as soon as
+       ONE directive is known to exclude it, an unevaluable one decides nothing (model `skipSelectionT3`)"""
+    from common import REPO
+    p = REPO / "src/py_gql/utilities/max_depth.py"
+    if "def _nesting_levels" not in p.read_text():
+        return False
+    return lenient_hook(p, "_nesting_levels") == "separate"
 
 
 def is_fixed_tree():
@@ -1134,6 +1232,12 @@ def corpus_cases():
 
 def run(ctx):
     real = Real()
+    try:
+        SEPARATE[0] = is_separate_directives_tree()
+    except Exception as e:  # noqa: an unknown hook shape is already a broken obligation (extract); the direct oracle still runs
+        SEPARATE[0] = False
+        ctx.notes.append("skip hook of _nesting_levels has an unknown shape (%s): reference uses the joint reading" % e)
+    ctx.extra["separate_directives"] = SEPARATE[0]
     budget0 = ctx.time_left()
     fixed = is_fixed_tree()
     sf_fixed = is_sf_fixed_tree()
@@ -1281,6 +1385,9 @@ def run(ctx):
 
     # --- hunt3: cost oracle on the exponential families + flat forwarding chains -------------------------
     cost_probe(ctx, real)
+
+    # --- outside probe C19-1: a deciding directive next to an unevaluable one ---------------------------
+    decisive_probe(ctx, real)
 
     # --- hunt2 C19/1: acyclic fragment chains 500 .. 3000 levels deep ---------------------------------
     deep_chain_probe(ctx, real, [500, 1200, 3000] if ctx.tier == "quick" else [500, 800, 1000, 1200, 3000])
@@ -1611,6 +1718,67 @@ def family_forward(n):
                      + ["fragment F%d on Query { c }" % n]), 0
 
 
+def decisive_docs():
+    """outside probe C19-1: a selection carrying BOTH directives, one of which decides (a literal) while the other needs a variable the
+       rule has no value for. Deterministic: 2 decisive + 2 control directive pairs x field / inline fragment / fragment spread."""
+    deep = [F("a", [F("a", [F("a", [F("c")])])])]
+    pairs = [("skip-true+include-unknown", {"skip": {"lit": True}, "incl": {"var": "v0"}}, True),
+             ("include-false+skip-unknown", {"skip": {"var": "v0"}, "incl": {"lit": False}}, True),
+             ("skip-false+include-unknown", {"skip": {"lit": False}, "incl": {"var": "v0"}}, False),
+             ("include-true+skip-unknown", {"skip": {"var": "v0"}, "incl": {"lit": True}}, False)]
+    for pname, d, decisive in pairs:
+        for kind in ("field", "inline", "spread"):
+            if kind == "field":
+                node, frags = F("a", deep, d=d), []
+            elif kind == "inline":
+                node, frags = I(deep, d=d), []
+            else:
+                node, frags = S("F0", d=d), [{"name": "F0", "sels": deep}]
+            doc = {"ops": [{"name": "A", "sels": [F("c")]}, {"name": "B", "sels": [F("c"), node]}], "frags": frags}
+            yield "%s:%s" % (pname, kind), doc, decisive
+
+
+def decisive_probe(ctx, real, k=None):
+    """DIRECT oracle with the three-valued reference (whatever the tree does): operation B has depth 0 for every value of the unknown
+       variable when ONE directive decides, so nothing may be reported at limit 1 - without variables, under the filter "B", and for a
+       request executing the flat operation A through graphql_blocking; the control pairs (the literal does not decide) stay reported
+       (upper bound). + the model of the tree under test against the code on the same documents."""
+    cases = []
+    ok = True
+    for j, (name, doc, decisive) in enumerate(decisive_docs()):
+        if k is not None and j != k:
+            continue
+        text = p_doc(doc)
+        if "@skip" in text and "@include" in text and j % 2 == 1:     # the other textual order of the two directives
+            import re as _re
+            text = _re.sub(r"(@skip\(if: [^)]*\)) (@include\(if: [^)]*\))", r"\2 \1", text)
+        document = real.parse(text)
+        ctx.count()
+        ctx.stat("decisive-probe:" + name.split(":")[0])
+        want = [] if decisive else [1]
+        assert expected_flags(doc, {}, 1, None) == ([] if (decisive and SEPARATE[0]) else [1])       # the tree's own reading
+        got = [real.flags(document, None, 1, None), real.flags(document, {}, 1, "B")]
+        out, _ = pipeline_outcome(real, text, {}, "A", 1, None)
+        bad = [g for g in got if g != want] or (decisive and out != "executed")
+        if bad:
+            ok = False
+            ctx.fail("%s:decisive-directive-beside-unknown" % ("over-flagged" if decisive else "not-flagged"),
+                     "a selection excluded by ONE directive whatever the other (unevaluable) one is, is still measured: the operation "
+                     "is reported although its depth is 0 for every value of the unknown variable" if decisive else
+                     "a selection whose only evaluable directive does not exclude it is no longer measured (the upper bound over the "
+                     "unknown condition is lost)",
+                     {"decisive": j, "class": name, "text": text, "flags_no_variables": got[0], "flags_filter_B": got[1],
+                      "request_executing_A": out, "expected_flags": want})
+        if k is None:
+            views, cok, unavailable = effective_views(doc, False, {})
+            c = Case(doc, views, real_vs={})
+            c.raw, c.unavailable, c.validate = True, unavailable, False
+            cases.append(c)
+    if cases:
+        correspond(ctx, real, cases, True)
+    return ok
+
+
 def cost_probe(ctx, real):
     """COST oracle (every run): on valid documents of these families the rule answers exactly (flagged at depth-1, not at depth) within a
        number of collections polynomial in the size of the document: steps <= 40 * (selection nodes + fragments)."""
@@ -1813,6 +1981,12 @@ def doc_with_types(doc):
 def replay(ctx, data):
     inp = data.get("input", {})
     real = Real()
+    try:
+        SEPARATE[0] = is_separate_directives_tree()
+    except Exception:  # noqa
+        SEPARATE[0] = False
+    if "decisive" in inp:
+        return decisive_probe(ctx, real, k=inp["decisive"])
     if "forwarding_chain" in inp:
         text, _ = family_forward(inp["forwarding_chain"])
         return real.flags(real.parse(text), {}, 0, None) == []
